@@ -26,6 +26,7 @@ func init() {
 			{ID: "C19.R6", Floor: 1, Doc: "getTimestamp counts 100 ns ticks from seconds and nanoseconds separately (no UnixNano, which wraps outside 1678..2262)", Run: c19r6},
 			{ID: "C19.R7", Floor: 4, Doc: "MinTimeUUID / MaxTimeUUID use the extreme clock and node bytes under Cassandra's signed byte order", Run: c19r7},
 			{ID: "C19.R8", Floor: 1, Doc: "UUID.Time splits the tick count into seconds and the sub-second part before building the time (no nanosecond count in an int64, which only spans 1678..2262)", Run: c19r8},
+			{ID: "C19.R10", Floor: 1, Doc: "the parser ORs the hexadecimal digits into a zeroed UUID: a variable declared without a value in the function holding the loop, or one cleared on every path before it (never the live receiver of an unmarshaler)", Run: c19ZeroDest},
 			{ID: "C19.R9", Floor: 1, Doc: "(UUID).Time returns the zero time only where the version is known not to be 1", Run: c19r9},
 		},
 	})
@@ -412,15 +413,26 @@ func c19r3(p *Program, r *Report) {
 	if fi == nil {
 		return
 	}
+	// the loop over the input: in ParseUUID or in a private helper it hands the input to
+	var rng *ast.RangeStmt
+	for _, u := range p.unitsOf(fi) {
+		if rng != nil {
+			break
+		}
+		ast.Inspect(u.Decl.Body, func(x ast.Node) bool {
+			if rs, ok := x.(*ast.RangeStmt); ok && rng == nil {
+				if t := u.Pkg.TypesInfo.TypeOf(rs.X); t != nil {
+					if b, isB := t.Underlying().(*types.Basic); isB && b.Kind() == types.String {
+						rng = rs
+						fi = u
+					}
+				}
+			}
+			return true
+		})
+	}
 	g := p.GraphOf(fi)
 	info := g.Info
-	var rng *ast.RangeStmt
-	ast.Inspect(fi.Decl.Body, func(x ast.Node) bool {
-		if rs, ok := x.(*ast.RangeStmt); ok && rng == nil {
-			rng = rs
-		}
-		return true
-	})
 	if rng == nil || rng.Value == nil {
 		r.Unresolved("ParseUUID: no range over the input")
 		return
@@ -775,8 +787,10 @@ func c19r3(p *Program, r *Report) {
 	facts := g.GuardFacts()
 	okFinal := false
 	for _, e := range g.Exits() {
+		// the success return: the error result (the last one; the only one when the loop lives in a helper that
+		// fills a destination it is handed) is nil
 		rs, ok := e.Node.(*ast.ReturnStmt)
-		if !ok || len(rs.Results) != 2 || !isNil(info, rs.Results[1]) {
+		if !ok || len(rs.Results) == 0 || !isNil(info, rs.Results[len(rs.Results)-1]) {
 			continue
 		}
 		f, _ := facts.Before(rs)
